@@ -457,7 +457,7 @@ func collectUpstreamProcs(proc WorkflowProcess, procs map[string]WorkflowProcess
 		}
 	}
 	for _, pip := range proc.InParamPorts() {
-		for _, rpp := range pip.RemotePorts {
+		for _, rpp := range pip.connectedOutParamPorts() {
 			visit(rpp.Process())
 		}
 	}
